@@ -118,7 +118,39 @@ func c14one(c *Ctx, desc c14case) {
 	allow := toks[0].AllowEscapes
 	ticks := 0
 	vs := c14scope(env, &ticks)
-	r := guarded(3*time.Second, func() (interface{}, error) { return evalProgram("c14", src, vs, nil) })
+	// one parsed and validated tree, evaluated three times in the same environment: the first
+	// evaluation goes to Coq; the later ones must give the same text and run t() as often
+	// (an evaluation is a function of the literal and the environment, not of earlier evaluations)
+	var later []string
+	var laterTicks []int
+	r := guarded(3*time.Second, func() (interface{}, error) {
+		erp := interpreter.NewECALRuntimeProvider("c14", nil, nil)
+		ast, err := parser.ParseWithRuntime("c14", src, erp)
+		if err != nil {
+			return nil, err
+		}
+		if err = ast.Runtime.Validate(); err != nil {
+			return nil, err
+		}
+		tid := erp.NewThreadID()
+		res, err := ast.Runtime.Eval(vs, make(map[string]interface{}), tid)
+		if err != nil {
+			return res, err
+		}
+		first := ticks
+		for k := 0; k < 2; k++ {
+			before := ticks
+			res2, err2 := ast.Runtime.Eval(vs, make(map[string]interface{}), tid)
+			if err2 != nil {
+				later = append(later, "error: "+err2.Error())
+			} else {
+				later = append(later, fmt.Sprint(res2))
+			}
+			laterTicks = append(laterTicks, ticks-before)
+		}
+		ticks = first
+		return res, nil
+	})
 	id := c.NewID()
 	switch {
 	case r.TimedOut:
@@ -138,6 +170,13 @@ func c14one(c *Ctx, desc c14case) {
 	if !ok {
 		c.Violate("not-a-string", fmt.Sprintf("result is %T", r.Val), desc)
 		return
+	}
+	for k, l := range later {
+		if l != out || laterTicks[k] != ticks {
+			d := map[string]interface{}{"case": desc, "evaluation": k + 2, "first": out, "later": l, "first_ticks": ticks, "later_ticks": laterTicks[k]}
+			c.Violate("interp-history-dependent", fmt.Sprintf("evaluation %d of the same literal in the same environment gave %q (t() ran %d times) after %q (%d times) the first time", k+2, l, laterTicks[k], out, ticks), d)
+			break
+		}
 	}
 	var tbl, tickTbl []string
 	for _, code := range c14candidates(tokVal) {
@@ -166,7 +205,7 @@ func c14one(c *Ctx, desc c14case) {
 }
 
 func runC14(c *Ctx) error {
-	c.Rule = "string literals as token sequences over {'{{','}}','{','}','a','b','t()','\"','x',' '} (exhaustive up to a length bound, then seeded random longer ones with newline and backslash), each in three variable environments (plain / values containing {{..}} / self-reproducing and '}}{{'), quoted and raw; non-trivial = the token value contains '{{' followed later by '}}'; distinct by (value, environment, raw); plus a re-entrant stream (recursion through an interpolated literal, re-evaluation with changing values) checked against strings computed from the program shape"
+	c.Rule = "string literals as token sequences over {'{{','}}','{','}','a','b','t()','\"','x',' '} (exhaustive up to a length bound, then seeded random longer ones with newline and backslash), each in three variable environments (plain / values containing {{..}} / self-reproducing and '}}{{'), quoted and raw; non-trivial = the token value contains '{{' followed later by '}}'; distinct by (value, environment, raw); every literal is evaluated three times on one parsed tree, later evaluations must repeat the first (text and number of t() calls); plus a re-entrant stream (recursion through an interpolated literal, re-evaluation with changing values) checked against strings computed from the program shape"
 	c.BeginCases("From Ecal Require Import Common.Bytes Run.RunC14.", "case", 400)
 
 	alphabet := []string{"{{", "}}", "{", "}", "a", "b", "t()", "\"", "x", " "}
@@ -266,6 +305,20 @@ func c14reentrant(c *Ctx) {
 	// the same literal re-evaluated in a loop with changing values
 	progs = append(progs, prog{"r := []\nfor i in range(1, 4) {\n r := add(r, \"<{{i}}:{{i * 2}}>\")\n}\nr", "[<1:2> <2:4> <3:6> <4:8>]"})
 	progs = append(progs, prog{"func g(v) {\n return \"[{{v}}]\"\n}\n[g(1), g(r\"{{v}}\"), g(3)]", "[[1] [{{v}}] [3]]"})
+	// left to right: expressions with side effects on a shared counter / a variable set by an earlier
+	// expression of the same literal / order recorded by a function
+	progs = append(progs,
+		prog{"c := 0\nfunc n() {\n c := c + 1\n return c\n}\n\"{{n()}}-{{n()}}-{{n()}}\"", "1-2-3"},
+		prog{"c := 0\nfunc n() {\n c := c + 1\n return c\n}\n[\"{{n()}}{{n()}}\", \"<{{n()}}|{{n()}}|{{n()}}|{{n()}}>\"]", "[12 <3|4|5|6>]"},
+		prog{"o := []\nfunc m(x) {\n o := add(o, x)\n return x\n}\ns := \"{{m(1)}}{{m(2)}}{{m(3)}}{{m(4)}}\"\n[s, o]", "[1234 [1 2 3 4]]"},
+		prog{"o := []\nfunc m(x) {\n o := add(o, x)\n return \"\"\n}\ns := \"a{{m('p')}}b{{m('q')}}c{{1 +}}d{{m('r')}}e\"\no", "[p q r]"},
+		prog{"c := 10\nfunc n() {\n c := c * 2\n return c\n}\nfunc h() {\n c := c + 1\n return c\n}\n\"{{n()}} {{h()}} {{n()}}\"", "20 21 42"},
+	)
+	// a failing (unparsable / invalid) expression in front of valid ones, the literal evaluated repeatedly
+	progs = append(progs,
+		prog{"c := 0\nfunc n() {\n c := c + 1\n return c\n}\nfunc g() {\n return \"{{n()}}|{{n()}}\"\n}\n[g(), g(), g()]", "[1|2 3|4 5|6]"},
+		prog{"r := []\nfor i in range(1, 3) {\n s := \"{{i}}/{{i + 10}}/{{i + 20}}\"\n r := add(r, s)\n}\nr", "[1/11/21 2/12/22 3/13/23]"},
+	)
 	for _, p := range progs {
 		desc := map[string]interface{}{"stream": "reentrant", "source": p.src, "expected": p.want}
 		r := guarded(5*time.Second, func() (interface{}, error) { return evalProgram("c14", p.src, nil, nil) })
